@@ -1,43 +1,53 @@
-(** C11 — Well-typed programs produce no error diagnostics.  PARTIAL: the theorems are the two
-    laws every use of type compatibility in the checker relies on, for the model of
-    TypeChecker::typesAreCompatible over type terms (typedef names resolved on either side as C12
-    proves): with qualifiers respected it is reflexive on every error-free type and symmetric on
-    every pair; with qualifiers ignored the same laws are kernel-evaluated over an enumerated
-    family (a bounded check, labelled as such).  That well-typed programs get no error diagnostic is
-    decided by differential testing against gcc. *)
+(** C11 — Well-typed programs produce no error diagnostics.  PARTIAL: the theorems are about the
+    model of TypeChecker::typesAreCompatible and TypeChecker::isTypeAssignableFromOtherType over
+    type terms (typedef names resolved on either side as C12 proves; with qualifiers ignored the
+    relation compares the terms with every qualifier erased):
+    - the laws every use of compatibility relies on: symmetric on every pair, reflexive on every
+      error-free type, in all four flag settings;
+    - COMPLETENESS, the direction C11 needs: whatever C11 6.2.7 calls compatible the relation
+      accepts, and whatever 6.5.16.1-1 allows in a simple assignment (arithmetic operands,
+      compatible structures, pointers to compatible types with qualifier inclusion, void
+      pointers, the null pointer constant, pointer to _Bool, array-to-pointer conversion of the
+      right operand) the assignability test accepts — so no well-typed assignment,
+      initialisation or argument passing of these forms can be rejected by these two functions.
+    That whole well-typed programs get no error diagnostic is decided by differential testing
+    against gcc. *)
 From Coq Require Import List NArith Bool Arith Lia.
 From PV Require Import C12Model C12Proofs C11Model C11Proofs.
 Import ListNotations.
 
-Theorem C11_compatibility_symmetric : forall d v t1 t2, compat d v false t1 t2 = compat d v false t2 t1.
-Proof.
-  intros d v t1 t2. unfold compat. replace (size (den d t2) + size (den d t1)) with (size (den d t1) + size (den d t2)) by lia. apply compat_sym_noq.
-Qed.
+Theorem C11_compatibility_symmetric : forall d v q t1 t2, compat d v q t1 t2 = compat d v q t2 t1.
+Proof. intros. unfold compat. apply compat_tf_sym. Qed.
 
-Theorem C11_compatibility_reflexive : forall d v t, clean (den d t) = true -> compat d v false t t = true.
-Proof. intros d v t Hc. unfold compat. apply compat_refl_noq; [exact Hc|lia]. Qed.
+Theorem C11_compatibility_reflexive : forall d v q t, clean (den d t) = true -> compat d v q t t = true.
+Proof. intros d v q t Hc. unfold compat. apply compat_tf_refl. exact Hc. Qed.
 
-(** bounded check with qualifiers ignored: every type / pair of types of nesting depth <= 2 over
-    {int, char, void, struct} x {pointer, array, const, const volatile, function of one parameter} *)
-Definition base : list ty := [TBasic 5; TBasic 0; TVoid; TTag 1]%N.
-Definition grow (l : list ty) : list ty :=
-  l ++ flat_map (fun t => [TPtr t; TArr t; TQual 1 t; TQual 3 t]) l ++ flat_map (fun r => map (fun p => TFun r [p]) base) l.
-Definition family : list ty := grow (grow base).
-Lemma C11_ignoring_qualifiers_bounded :
-  forallb (fun t => compat_tf 40 false true t t && compat_tf 40 true true t t) family = true /\
-  forallb (fun a => forallb (fun b => Bool.eqb (compat_tf 40 false true a b) (compat_tf 40 false true b a) &&
-                                      Bool.eqb (compat_tf 40 true true a b) (compat_tf 40 true true b a)) family) family = true /\
-  Nat.leb 100 (length family) = true.
-Proof. vm_compute. repeat split; reflexivity. Qed.
+Theorem C11_compatibility_complete : forall a b v q, compat_spec a b -> compat_tf v q a b = true.
+Proof. intros. apply compat_tf_complete. assumption. Qed.
 
-(** Non-vacuity: typedef const int CI; typedef CI *P;  —  P vs const int * ; int * vs const int * (only with qualifiers ignored) *)
+Theorem C11_assignability_complete : forall l r nullc, assignable_spec l r nullc -> clean l = true -> clean r = true ->
+  assignable l r nullc = true.
+Proof. exact assignable_complete. Qed.
+
+(** Non-vacuity: typedef const int CI; typedef CI *P;  —  P vs const int * ; int * vs const int * (only with qualifiers ignored);
+    const char *s = "x" (array of char decays); _Bool b = p; p = 0 *)
 Example C11_nonvacuous :
   let d := denv [(2, TPtr (TName 1)); (1, TQual 1 (TBasic 5))]%N in
   compat d false false (TName 2) (TPtr (TQual 1 (TBasic 5))) = true /\
   compat d false false (TPtr (TBasic 5)) (TName 2) = false /\
   compat d false true (TPtr (TBasic 5)) (TName 2) = true /\
-  compat d true false (TPtr TVoid) (TName 2) = true.
-Proof. vm_compute. repeat split; reflexivity. Qed.
+  compat d true false (TPtr TVoid) (TName 2) = true /\
+  assignable (TPtr (TQual 1 (TBasic 0))) (TArr (TBasic 0)) false = true /\
+  assignable (TBasic 11) (TPtr (TBasic 5)) false = true /\
+  assignable (TPtr (TBasic 5)) (TBasic 5) true = true /\
+  assignable (TPtr (TBasic 5)) (TBasic 5) false = false /\
+  assignable_spec (TPtr (TQual 1 (TBasic 0))) (TArr (TBasic 0)) false.
+Proof.
+  vm_compute. repeat split; try reflexivity.
+  apply as_decay. apply as_ptr; [constructor|reflexivity].
+Qed.
 
 Print Assumptions C11_compatibility_symmetric.
 Print Assumptions C11_compatibility_reflexive.
+Print Assumptions C11_compatibility_complete.
+Print Assumptions C11_assignability_complete.
